@@ -1,7 +1,6 @@
 package pongo2
 
 import (
-	"errors"
 	"fmt"
 	"reflect"
 	"strconv"
@@ -247,19 +246,15 @@ func (vr *variableResolver) resolve(ctx *ExecutionContext) (*Value, error) {
 
 	// we are resolving an in-template array definition
 	if len(vr.parts) > 0 && vr.parts[0].typ == varTypeArray {
-		items := make([]*Value, 0)
+		// (the items are kept as plain values: a list of *Value would be wrapped a second
+		// time by everything that takes items out of it - for, in, first, sorted, ...)
+		items := make([]any, 0, len(vr.parts))
 		for _, part := range vr.parts {
-			switch v := part.subscript.(type) {
-			case *nodeFilteredVariable:
-				item, err := v.resolver.Evaluate(ctx)
-				if err != nil {
-					return nil, err
-				}
-
-				items = append(items, item)
-			default:
-				return nil, errors.New("unknown variable type is given")
+			item, err := part.subscript.Evaluate(ctx)
+			if err != nil {
+				return nil, err
 			}
+			items = append(items, item.Interface())
 		}
 
 		return &Value{
